@@ -19,7 +19,7 @@ from qce_circuit.structure.intrf_registry import (
     IRegistry,
     IRegistryGetter,
 )
-from qce_circuit.structure.intrf_circuit_operation import ICircuitOperation
+from qce_circuit.structure.intrf_circuit_operation import ICircuitOperation, clear_start_time_cache
 
 
 TRegistryKey = str
@@ -100,9 +100,11 @@ def temporary_override_get_registry_at(temp_registry: Dict[GlobalRegistryKey, fl
 
     try:
         GlobalDurationRegistry.get_registry_at = temp_get_registry_at
+        clear_start_time_cache()  # Global durations changed
         yield
     finally:
         GlobalDurationRegistry.get_registry_at = original_method
+        clear_start_time_cache()  # Global durations changed
 
 
 class DurationRegistry(IRegistry[TRegistryKey, float]):
@@ -128,6 +130,7 @@ class DurationRegistry(IRegistry[TRegistryKey, float]):
         :param value: The duration value to be associated with the key.
         """
         self._variable_durations[key] = value
+        clear_start_time_cache()  # Registry durations changed
 
     def get_registry_at(self, key: TRegistryKey) -> float:
         """
